@@ -115,8 +115,8 @@ var props = map[string]*PropDef{
 		Technique:  "pairing/escape rules over type-checked syntax; path-sensitive dominance",
 	},
 	"C19": {
-		Rules: []string{"OPT-1", "OPT-2", "OPT-3", "OPT-4", "OPT-5", "OPT-6", "V1-1"},
-		Decided: "the flag constants form a consistent bit algebra with the documented v1 defaults; every boolean option constructor is injective and value-faithful; Join and GetOption agree on which flag guards which value field (including the nested *Struct case and the json-injected options); per-call options are saved and restored by defer before any mutation; struct-tag options are restored on every path; one-sided options are only read on their side; v1 entry points pass DefaultOptionsV1.",
+		Rules: []string{"OPT-1", "OPT-2", "OPT-3", "OPT-4", "OPT-5", "OPT-6", "V1-1", "GLOBAL-1"},
+		Decided: "the flag constants form a consistent bit algebra with the documented v1 defaults; every boolean option constructor is injective and value-faithful; Join and GetOption agree on which flag guards which value field (including the nested *Struct case and the json-injected options); per-call options are saved and restored by defer before any mutation; struct-tag options are restored on every path; one-sided options are only read on their side; v1 entry points pass DefaultOptionsV1; the shared default option sets are never mutated.",
 		NotDecided: "the bit arithmetic of Flags.Join/Set/Get/Clear themselves (five-line bodies; their correctness is arithmetic).",
 		Technique:  "constant-table evaluation; path-sensitive check of constructors and scoping; sibling agreement of type switches",
 	},
